@@ -13,7 +13,7 @@ RULE = ('cases = {GULP, excel} x pair-model space of C01 (potentials regular at 
         'models (ordered element subsets, every subset of pair / dipole / quadrupole pairs with orientations, grids) x 3 routes; '
         'excel_eam / excel_eam_fs x EAM / FS models x routes; writeFuncFL x 1-element models x grids; every case executed; '
         'non-trivial = every case with >= 2 rows and >= 1 non-zero function')
-RULE += '; pair space extensions of C01 (objects only for GULP; numpy 0-d returning callables also in the workbooks); ADP: density-only species with dipoles, dipole / quadrupole lists whose functions all involve species outside the file, label / foreign-pair models; funcfl with attractive pair potentials (refused or faithful)'
+RULE += '; pair space extensions of C01 (objects only for GULP; numpy 0-d returning callables also in the workbooks); ADP: density-only species with dipoles, dipole / quadrupole lists whose functions all involve species outside the file, label / foreign-pair models; funcfl with attractive pair potentials (refused or faithful); labels Li / Li+ / O* (a prefix followed by a character sorting below the hyphen); EAM workbooks of models that also hold pair potentials of species without many-body functions (their columns belong in the Pair sheet)'
 ASSUMPTIONS = [
     'GULP: "spline cubic" / "A B cutoff" / nr rows "energy separation"; ADP: setfl followed by u then w blocks for (i, j<=i), unscaled',
     'funcfl: Z(r) column squared * 27.2 * 0.529 / r is the pair potential (conversion constants as documented in the writer)',
@@ -78,6 +78,10 @@ def cases(tier):
         out.append(dict(kind='excel_eam', m=m, route='cfg'))
     for m in EK.big_models(True, tier)[::3]:
         out.append(dict(kind='excel_eam_fs', m=m, route='potable'))
+    for fs in (False, True):
+        for i, m in enumerate(EK.label_models(fs, tier)):
+            if m.get('foreign'):
+                out.append(dict(kind='excel_eam_fs' if fs else 'excel_eam', m=m, route=('cls', 'cfg', 'potable')[i % 3]))
     for fs in (False, True):
         for m in EK.api_option_models(fs):
             if m.get('numpy_returns') or m.get('assign_after'):
@@ -236,6 +240,9 @@ def run_excel_eam(case):
     pc = {}
     for a, b in m['pairs']:
         pc['%s-%s' % tuple(sorted((a, b)))] = (lambda f: lambda x: f(x).v)(ref['phi'](a, b))
+    # pair potentials of species without many-body functions (the oxide part of a metal / oxide model) have their columns too: the workbook holds every potential of the model
+    for a, b in m.get('foreign', []):
+        pc['%s-%s' % tuple(sorted((a, b)))] = (lambda f: lambda x: f(x).v)(ref['phi'](a, b, 'foreign'))
     n += check_sheet(viol, wb, 'Pair', 'r', rg, pc, 'pair')
     if m['fs']:
         dc = {'%s->%s' % (a, b): (lambda f: lambda x: f(x).v)(ref['rho'][(a, b)]) for a in els for b in els}
